@@ -55,9 +55,9 @@ def state_key(env):
 
 
 def alphabet(env, full):
-    ops = [["start"], ["stop", "none"], ["stop", "start"], ["when", 0, "none"], ["when", 1, "none"], ["when", 2, "none"]]
+    ops = [["start"], ["stop", "none"], ["stop", "start"], ["when", -1, "none"], ["when", 0, "none"], ["when", 1, "none"], ["when", 2, "none"]]
     if full:
-        ops += [["stop", "when"], ["when", 0, "stop"], ["when", 0, "when"], ["when", 1, "start"]]
+        ops += [["stop", "when"], ["when", -1, "stop"], ["when", -1, "when"], ["when", 1, "start"]]
     ops += env.enabled_env_ops()
     ops += [["adv", 1], ["adv", 2]]
     return ops
@@ -125,7 +125,7 @@ def random_history(rng, n, profile):
         elif r < 0.94:
             if profile != "full" and not started:
                 continue
-            op = ["when", rng.choice([0, 0, 1, 2, 3]), rng.choice(thens)]
+            op = ["when", rng.choice([-1, -1, 0, 1, 2, 3]), rng.choice(thens)]
         elif r < 0.97:
             op = ["cmode", rng.choice(MODES)]
         else:
@@ -152,7 +152,7 @@ def fingerprint(trace, rej):
         return "drop(connection %s)/%s" % (ph["conns"].get(str(e["a"]), "?"), e["res"])
     arg = ""
     if e["e"] == "when":
-        arg = "(limit)" if e["k"] else "()"
+        arg = "(limit)" if e["k"] >= 0 else "()"
     before = ph["intent"] + "|" + ",".join((["attempt"] if ph["attempt"] else []) + sorted(set(ph["conns"].values())) or ["-"])
     if e["e"] == "stop" and ph["intent"] == "never-started" and ph["waiters_pending"]:
         before += "|waiters-pending"
@@ -175,7 +175,7 @@ def normalise(trace, reached):
     last = ops[-1]
     then = last[-1]
     last[-1] = "none"
-    follow = {"start": ["start"], "stop": ["stop", "none"], "when": ["when", 0, "none"]}[then]
+    follow = {"start": ["start"], "stop": ["stop", "none"], "when": ["when", -1, "none"]}[then]
     return ops + [follow]
 
 
@@ -255,15 +255,15 @@ def run(ctx):
     ctx.require_actions("ClientSvcMC", ["Start", "Stop", "When", "Succeed", "Fail", "PrepOk", "PrepFail", "Drop", "Adv", "Nested"])
 
     # Impl layer: ClientService AS CODED (automat table + dispatch semantics + Deferred chain, ClientSvcImpl.tla) against the
-    # property.  Under the five environment restrictions A..E TLC must find it accepted; dropping any one must give a
+    # property.  Under the three environment restrictions C..E TLC must find it accepted; dropping any one must give a
     # counterexample, which is replayed on the real service below (a counterexample that does not reproduce = impl_drift).
     ri = ctx.mc("ClientSvcImplMC", ctx.pick("ClientSvcImplMC.ALL.cfg", "ClientSvcImplMC.ALL.thorough.cfg"), coverage=False,
-                label="coded machine under environment restrictions A-E")
+                label="coded machine under environment restrictions C-E")
     if not ri.ok:
-        raise MachineryError("ClientSvcImpl under restrictions A-E is not accepted by ClientSvc (new defect class or model error): " + ri.error[:1500]
+        raise MachineryError("ClientSvcImpl under restrictions C-E is not accepted by ClientSvc (new defect class or model error): " + ri.error[:1500]
                              + "\n" + "".join(ri.cex[-1:])[-1500:])
     design_cex = {}
-    for x in "ABCDE":
+    for x in "CDE":
         rx = ctx.mc("ClientSvcImplMC", "ClientSvcImplMC.%s.cfg" % x, must_pass=False, coverage=False,
                     label="restriction %s dropped (counterexample expected)" % x)
         if rx.ok or rx.kind != "invariant":
@@ -328,7 +328,7 @@ def run(ctx):
     behs = ctx.simulate("ClientSvcSim", "ClientSvcSim.cfg", num=ctx.pick(50, 800), depth=14)
     sim = []
     for b in behs:
-        ops = [[int(x) if isinstance(x, str) and x.isdigit() else x for x in h] for h in b["hist"]]
+        ops = [[int(x) if isinstance(x, str) and x.lstrip("-").isdigit() else x for x in h] for h in b["hist"]]
         sim.append(run_history(b["cfg"], ops))
     validate(sim)
     ctx.extra["spec_behaviours_replayed"] = len(behs)
